@@ -2,8 +2,14 @@
    extracted inductive types; no Extract Constant. *)
 From Coq Require Import ExtrOcamlBasic.
 From Coq Require Extraction.
-From I18n Require Import Lib.Outcome Model.IntExpr Model.PluralForms.
+From I18n Require Import Lib.Outcome Model.IntExpr Model.PluralForms Model.Encodings Model.Iconv.
 Extraction Language OCaml.
 Extraction "model.ml"
   IntExpr.parse_string IntExpr.pyeval IntExpr.codomain IntExpr.period
-  PluralForms.parse_plural_forms PluralForms.check_plurals_core.
+  PluralForms.parse_plural_forms PluralForms.check_plurals_core
+  Encodings.cm_decode Encodings.cm_encode Encodings.cm_build Encodings.is_portable_encoding
+  Encodings.propose_portable_encoding Encodings.is_ascii_compatible_encoding Encodings.classify
+  Encodings.codec_search Encodings.get_unrepresentable_characters Encodings.unrepresentable_tag_args
+  Encodings.real_enc_data Encodings.real_oracle Encodings.charmap_table Encodings.list_eqb
+  Encodings.ascii_lower Encodings.ascii_upper
+  Iconv.iconv_decode Iconv.iconv_encode.
